@@ -498,7 +498,7 @@ def run(tier):
         "p2": lambda: probe(wd, "Pool_dev_index.cfg", scfile, "DevSharedIndex", ["LookupExactP"], "probe_index"),
         "r": lambda: leg_r(wd, binary, PROP, "Pool_contract_edges.cfg", scens, "contract", rng, verdict, devs, accept=acc),
         "t": lambda: leg_t(wd, binary, PROP, "c14", verdict, devs, histories=nh, steps=st, accept=acc, timeout=3000,
-                           extra_env={"VERIF_SCRIPTED": 6 if tier == "quick" else 36}),
+                           extra_env={"VERIF_SCRIPTED": 4 if tier == "quick" else 36, "VERIF_SCRIPT_KINDS": "mixed-inputs,storage-proof" if tier == "quick" else "mixed-inputs,storage-proof,cross-kind-eviction"}),
     })
     ms, rr, tt = [res["m"]], [res["r"]], res["t"]
     probes = {"DevPartialAdd breaks AtomicityStrict": res["p1"], "DevSharedIndex breaks LookupExactStrict": res["p2"]}
